@@ -27,19 +27,27 @@ from .core import jsonable
 
 
 class Names:
-    def __init__(self, mapping=None):
+    """Token -> actual name.  Tokens are globally unique; actual names need only be unique within a
+    *namespace* ('axis' names, 'ds' = dimension / variable / coordinate / array names, 'dummy' = ufunc dummy
+    names), so the same actual name may legitimately occur in two namespaces (an axis called like a
+    dimension, a dummy name equal to the name of a real axis).  `spaces` maps token -> namespace."""
+
+    def __init__(self, mapping=None, spaces=None):
         self.map = dict(mapping or {})
-        self.inv = {v: k for k, v in self.map.items()}
+        self.spaces = dict(spaces or {})
+        self.inv = {}
+        for tok, actual in self.map.items():
+            self.inv.setdefault(self.spaces.get(tok, "ds"), {})[actual] = tok
 
     def __call__(self, tok):
         if tok is None:
             return None
         return self.map.get(tok, tok)
 
-    def back(self, name):
+    def back(self, name, space="ds"):
         if name is None:
             return None
-        return self.inv.get(name, name)
+        return self.inv.get(space, {}).get(name, name)
 
 
 def _resolve_attr(v, nm):
@@ -187,7 +195,12 @@ class Env:
 
     def __init__(self, sc, names=None):
         self.sc = sc
-        self.nm = names if isinstance(names, Names) else Names(names)
+        if isinstance(names, Names):
+            self.nm = names
+        elif isinstance(names, dict) and "map" in names and "spaces" in names:
+            self.nm = Names(names["map"], names["spaces"])
+        else:
+            self.nm = Names(names)
         self.ds = build_dataset(sc, self.nm)
         self.grid_error = None
         self.grid = None
@@ -296,13 +309,13 @@ class Env:
             b = _GridUFuncSignature.from_string(sig_string(call["b"], nm))
             return {"equivalent": bool(a.equivalent(b)), "printed": [self.unsig(str(a), call["a"]), self.unsig(str(b), call["b"])]}
         if fn == "axes":
-            return {"axes": [self.nm.back(a) for a in g.axes],
-                    "coords": {self.nm.back(a): {p: self.nm.back(d) for p, d in ax.coords.items()} for a, ax in g.axes.items()}}
+            return {"axes": [self.nm.back(a, "axis") for a in g.axes],
+                    "coords": {self.nm.back(a, "axis"): {p: self.nm.back(d) for p, d in ax.coords.items()} for a, ax in g.axes.items()}}
         if fn == "grid":
             # (re)construct a Grid from the scenario's grid description (C18: constructor arguments)
             from xgcm import Grid
 
-            return {"axes": sorted(self.nm.back(a) for a in Grid(self.ds, **self.grid_kw).axes)}
+            return {"axes": sorted(self.nm.back(a, "axis") for a in Grid(self.ds, **self.grid_kw).axes)}
         if fn == "transform":
             import xarray as xr
 
@@ -351,10 +364,11 @@ class Env:
     def name_back(self, name):
         if not isinstance(name, str):
             return name
-        if name in self.nm.inv:
-            return self.nm.inv[name]
+        inv = self.nm.inv.get("ds", {})
+        if name in inv:
+            return inv[name]
         # a derived name such as <input name><suffix>
-        for tok, actual in sorted(self.nm.map.items(), key=lambda kv: -len(kv[1])):
+        for actual, tok in sorted(inv.items(), key=lambda kv: -len(kv[0])):
             if actual and name.startswith(actual):
                 return tok + name[len(actual):]
         return name
